@@ -11,7 +11,8 @@ Static clauses decided (necessary conditions of C10, not the behaviour itself):
     change is answered from a stale entry.  Stores into the cache must be dominated by the same call or by
     Database._exec_sql (which makes it).
  B  every session-side membership mutation of a collection's SetData is paired, in the same statement list, with
-    the adjustment of its cached `count` (so len()/count()/is_empty() answered from the cache stay right).
+    the adjustment of its cached `count` (so len()/count()/is_empty() answered from the cache stay right); (round 8) an adjustment placed under a
+    further condition of the block must still lie on every normal path from the mutation to the exit (only `count is not None` may skip it).
  C  prepare_connection_for_query_execution reaches its normal exit only through the test
     `not cache.noflush_counter and cache.modified` whose true branch calls cache.flush(); Database._exec_sql calls it
     before provider.execute; SessionCache.flush clears query_results before any statement-emitting call; the bulk
@@ -362,6 +363,21 @@ def run_count_pairing(ctx):
                     continue
                 n_sites += 1
                 paired = any(adjusts_count(s2, var) for s2 in body)
+                if paired and not any(adjusts_directly(s2, var) for s2 in body):
+                    # (round 8) the adjustment sits under some further condition of the same block: it must still happen whenever the membership
+                    # changes -- every normal path from the mutation to the exit passes an adjustment, the only way round being the false edge
+                    # of `<var>.count is not None` (a re-added item that was pending removal changes the content just like a new one)
+                    g_ = ctx.cg.cfg(fn)
+                    adj = [x for x in g_.nodes if x.kind == 'stmt' and isinstance(x.ast, (ast.Assign, ast.AugAssign)) and adjusts_count(x.ast, var)]
+                    def eo_(x, y, lab, g_=g_, var=var):
+                        n_ = g_.nodes[x]
+                        if lab == 'exc': return False
+                        if n_.kind == 'test' and norm(n_.ast) == '%s.count is not None' % var and lab == 'F': return False
+                        if n_.kind == 'test' and norm(n_.ast) == '%s.count is None' % var and lab == 'T': return False
+                        return True
+                    starts_ = [y for s_ in g_.nodes_of(st) for y, lab in g_.succ[s_.id] if lab != 'exc']
+                    before_ = any(body.index(s2) < body.index(st) for s2 in body if adjusts_count(s2, var))
+                    if not before_ and g_.exit.id in g_.reach(starts_, avoid=adj, edge_ok=eo_): paired = False
                 ok = paired or count_known_none(ctx.cg.cfg(fn), st, var)
                 if not ok:
                     # ... or the count is recomputed from the content (or dropped) on every way out after the mutation
@@ -389,6 +405,13 @@ def mutation_of(st, names):
             and isinstance(st.op, (ast.BitOr, ast.Sub, ast.BitAnd, ast.BitXor)):
         return st.target.id, '%s %s=' % (st.target.id, type(st.op).__name__)
     return None
+
+
+def adjusts_directly(st, var):
+    """the statement is the adjustment itself, or `if <var>.count is not None: <adjustment>` -- nothing else decides whether it happens"""
+    if isinstance(st, (ast.Assign, ast.AugAssign)): return adjusts_count(st, var)
+    if isinstance(st, ast.If) and norm(st.test) == '%s.count is not None' % var: return any(adjusts_directly(s2, var) for s2 in st.body)
+    return False
 
 
 def adjusts_count(st, var):
@@ -420,6 +443,7 @@ def count_known_none(g, st, var):
 
 
 MUTANTS = [
+    dict(id='C10-b8', file='pony/orm/core.py', fn='Set.reverse_add', old='            if setdata.count is not None: setdata.count += 1\n            if in_removed: setdata.removed.remove(item)\n            else: setdata.added.add(item)\n', new='            if in_removed: setdata.removed.remove(item)\n            else:\n                setdata.added.add(item)\n                if setdata.count is not None: setdata.count += 1\n', expect='C10-B.count-paired-with-membership-change'),
     dict(id='C10-del1', file='pony/orm/core.py', fn='SetInstance.__contains__', old="        if item._status_ in del_statuses: return False  # it was taken out of every collection when it was deleted\n", new="", expect='C10-B.a-deleted-item'),
     dict(id='C10-own1', file='pony/orm/core.py', fn='Set.load', old="                if setdata2.removed: items -= setdata2.removed\n                setdata2 |= items", new="                if setdata.removed: items -= setdata.removed\n                setdata2 |= items", expect='C10-B.loaded-rows'),
     dict(id='C10-f1', file='pony/orm/core.py', fn='SessionCache._calc_modified_m2m', old="            if reverse in modified_m2m:\n", new="            if reverse in modified_m2m: continue\n            if False:\n", expect='C10-F.flush-settles'),
